@@ -1357,3 +1357,55 @@ def c06(case):
                 "raw": {"lots": whole["raw_lots"], "qqs": whole["raw_qqs"], "acres": whole["acres"]}}
     except Exception as e:  # noqa
         return _exc(e)
+
+
+# ---------------------------------------------------------------------------
+# C07: aliquot spellings
+
+_PP_TOK = re.compile(r"([NSEW]½|(?:NE|NW|SE|SW)¼)")
+C07_CONFIGS = [None, "qq_depth_min.1", "qq_depth.3", "break_halves,qq_depth_min.1,qq_depth_max.3", "suppress_lot_divs"]
+
+
+def _c07_res(text, clean, cfg):
+    import pytrs
+    parts = [x for x in (cfg, "clean_qq" if clean else None) if x]
+    t = pytrs.Tract(text, parse_qq=True, config=",".join(parts) or None)
+    return t, (tuple(t.lots), tuple(t.qqs), tuple(t.aliquots_whole))
+
+
+def c07(case):
+    a = case["args"]
+    text, canon, clean = a["text"], a["canon"], a["clean"]
+    try:
+        same = fixed = True
+        pp = None
+        for cfg in C07_CONFIGS:
+            t, r = _c07_res(text, clean, cfg)
+            tc, rc = _c07_res(canon, clean, cfg)
+            if pp is None:
+                pp = t.pp_desc
+            if a["all_recognised"] and (r != rc or t.pp_desc != tc.pp_desc):
+                same = False
+            t2, r2 = _c07_res(t.pp_desc, clean, cfg)
+            if t2.pp_desc != t.pp_desc or r2 != r:
+                fixed = False
+            if t.preprocess() != t.pp_desc:
+                fixed = False
+        toks, pos = [], 0
+        for m in _PP_TOK.finditer(pp):
+            if pp[pos:m.start()].strip():
+                toks.append(["?", pp[pos:m.start()].strip()[:12]])
+            g = m.group()
+            toks.append([g[:-1], g[-1]])
+            pos = m.end()
+        if pp[pos:].strip():
+            toks.append(["?", pp[pos:].strip()[:12]])
+        # a bare quarter counts as recognised iff its symbol shows up in the normalised text
+        # (the driver gives every component of such a chain its own direction)
+        syms = {tk[0] for tk in toks if tk[0] != "?"}
+        t0, _ = _c07_res(text, clean, None)
+        bare = [(comp["class"] != "BAREQ") or (a["dirs"][i] in syms) for i, comp in enumerate(a["w"])]
+        return {"exc": "none", "pp": toks, "same": same, "fixed": fixed, "bare": bare, "pp_text": pp,
+                "qqs": list(t0.qqs)[:8]}
+    except Exception as e:  # noqa
+        return _exc(e)
